@@ -234,6 +234,9 @@ def tlc(module, cfg, workers=None, simulate=None, depth=None, seed=None, env=Non
     m = re.search(r"Invariant (\S+) is violated", out)
     if m:
         r.violation = m.group(1)
+    m3 = re.search(r"Postcondition (\S+) .*is false", out)
+    if m3 and not r.violation:
+        r.violation = "Postcondition " + m3.group(1)
     m2 = re.search(r"(Temporal properties were violated|Action property \S+ is violated|Deadlock reached|The postcondition \S+ is violated|Assumption .* is false)", out)
     if m2 and not r.violation:
         r.violation = m2.group(1)
@@ -266,7 +269,7 @@ def tlc(module, cfg, workers=None, simulate=None, depth=None, seed=None, env=Non
         with open(out_file, "w") as fh:      # rewrite as clean NDJSON for the harness
             for v in r.emitted:
                 fh.write(json.dumps(v, separators=(",", ":")) + "\n")
-    ok_exit = rc in (0, 12, 13)  # 0 ok, 12 safety violation, 13 liveness violation
+    ok_exit = rc in (0, 10, 12, 13)  # 0 ok, 12 safety violation, 13 liveness violation
     if rc == 124:
         raise Broken("TLC timed out after %ss on %s/%s" % (timeout, module, cfg))
     if not ok_exit and r.violation is None:
